@@ -7,7 +7,7 @@ import aescampaign, ctxlayer
 
 def run(tier):
     ev, vd = Evidence("C20", tier), Verdict("C20", tier)
-    aescampaign.run("C20", tier, ev, vd, only=("keyexp", "cbc", "xts", "gcminit", "gcmdata", "gcmstream", "hashkernel", "mhkernel", "murkernel"))
+    aescampaign.run("C20", tier, ev, vd, only=("keyexp", "cbc", "xts", "gcminit", "gcmdata", "gcmstream", "hashkernel") + (() if tier == "quick" else ("mhkernel", "murkernel")))      # quick: the multi-hash / stitched kernels run under C05 / C10 only (run time)
     ctxlayer.run("C20", tier, [5, 1], ev, vd)
     ev.cov["outside_bounds"] += ["GCM update/finalize/one-shot, hash kernels and schedulers, multi-hash kernels, rolling-hash scans (not yet executed by the engine)"]
     ev.assume("asmsym: a declared output (output bytes, round keys, GCM context fields) is a violation if its term mentions a stale_* symbol after simplification",
